@@ -130,3 +130,4 @@ fn balance_decode_invariant() {
         Err(_) => assert!(v > MAX),
     }
 }
+
